@@ -1175,6 +1175,73 @@ def genexp_loops(node):
     return done
 
 
+def callee_chosen_first(node):
+    """`if c: f, kw = A, {}` / `else: f, kw = B, {'k': v}` followed by `x = f(a, **kw)`  ->  the call moved into both branches with the
+    callee (and the keyword dict) each branch chose: `x = A(a)` / `x = B(a, k=v)`.  The names are bound only in the two branches (as
+    their last statements) and used only in the statement that follows the `if`.  In place; parent links must be set, left stale."""
+    done = False
+    for blk_owner in [node] + [n for n in own_nodes(node)]:
+        for fld in ('body', 'orelse', 'finalbody'):
+            blk = getattr(blk_owner, fld, None)
+            if not (isinstance(blk, list) and blk and isinstance(blk[0], ast.stmt)):
+                continue
+            i = 0
+            while i + 1 < len(blk):
+                iff, nxt = blk[i], blk[i + 1]
+                i += 1
+                if not (isinstance(iff, ast.If) and iff.body and iff.orelse and isinstance(nxt, (ast.Assign, ast.Expr))):
+                    continue
+
+                def chosen(branch):
+                    last = branch[-1]
+                    if not (isinstance(last, ast.Assign) and len(last.targets) == 1):
+                        return None
+                    t, v = last.targets[0], last.value
+                    if isinstance(t, ast.Name):
+                        return {t.id: v}
+                    if isinstance(t, ast.Tuple) and isinstance(v, ast.Tuple) and len(t.elts) == len(v.elts) and \
+                            all(isinstance(x, ast.Name) for x in t.elts):
+                        return {x.id: y for x, y in zip(t.elts, v.elts)}
+                    return None
+                ca, cb = chosen(iff.body), chosen(iff.orelse)
+                if not ca or not cb or set(ca) != set(cb):
+                    continue
+                calls = [c for c in ast.walk(nxt) if isinstance(c, ast.Call) and isinstance(c.func, ast.Name) and c.func.id in ca]
+                if len(calls) != 1:
+                    continue
+                call = calls[0]
+                names = set(ca)
+                used_in_next = {n.id for n in ast.walk(nxt) if isinstance(n, ast.Name) and n.id in names}
+                elsewhere = [n for n in own_nodes(node) if isinstance(n, ast.Name) and n.id in names
+                             and not any(n is x for x in ast.walk(nxt)) and not any(n is x for x in ast.walk(iff.body[-1]))
+                             and not any(n is x for x in ast.walk(iff.orelse[-1]))]
+                kwn = [k for k in call.keywords if k.arg is None and isinstance(k.value, ast.Name) and k.value.id in names]
+                if elsewhere or used_in_next != names or len(kwn) != len(names) - 1:
+                    continue
+                if any(not (isinstance(ch[k.value.id], ast.Dict) and all(isinstance(kk, ast.Constant) and isinstance(kk.value, str)
+                                                                            for kk in ch[k.value.id].keys)) for ch in (ca, cb) for k in kwn):
+                    continue
+
+                def build(ch):
+                    st = clone(nxt)
+                    c2 = [c for c in ast.walk(st) if isinstance(c, ast.Call) and isinstance(c.func, ast.Name) and c.func.id == call.func.id][0]
+                    c2.func = clone(ch[call.func.id])
+                    kws = []
+                    for k in c2.keywords:
+                        if k.arg is None and isinstance(k.value, ast.Name) and k.value.id in names:
+                            d = ch[k.value.id]
+                            kws.extend(ast.keyword(arg=kk.value, value=clone(vv)) for kk, vv in zip(d.keys, d.values))
+                        else:
+                            kws.append(k)
+                    c2.keywords = kws
+                    return st
+                iff.body = iff.body[:-1] + [build(ca)]
+                iff.orelse = iff.orelse[:-1] + [build(cb)]
+                del blk[i]
+                done = True
+    return done
+
+
 def normalized(ctx, fi, depth=2, do_canon=True, keep=()):
     """A FuncInfo whose node is a normalised deep copy of fi.node (helpers inlined, canonical spellings)."""
     cache = ctx.__dict__.setdefault('_norm_cache', {})
@@ -1212,6 +1279,9 @@ def normalized(ctx, fi, depth=2, do_canon=True, keep=()):
         ast.fix_missing_locations(node)
         set_parents(node)
     if genexp_loops(node):
+        ast.fix_missing_locations(node)
+        set_parents(node)
+    if callee_chosen_first(node):
         ast.fix_missing_locations(node)
         set_parents(node)
     node._parent = getattr(fi.node, '_parent', None)
